@@ -1094,7 +1094,7 @@ fn writer_values() -> Vec<V> {
 
 // ------------------------------------------------------------------------------------------
 
-fn arb_doc() -> impl Strategy<Value = String> {
+fn arb_doc() -> impl Strategy<Value = String> + Clone + use<> {
     // small random multi-document streams built from lines; valid and invalid
     let scalar = prop_oneof![
         4 => "[a-z]{1,6}",
@@ -1143,7 +1143,7 @@ fn arb_doc() -> impl Strategy<Value = String> {
     })
 }
 
-fn arb_sched() -> impl Strategy<Value = Sched> {
+fn arb_sched() -> impl Strategy<Value = Sched> + Clone + use<> {
     prop_oneof![
         Just(Sched::All),
         Just(Sched::Fixed(1)),
@@ -1154,7 +1154,7 @@ fn arb_sched() -> impl Strategy<Value = Sched> {
     ]
 }
 
-fn arb_read_case() -> impl Strategy<Value = Case> {
+fn arb_read_case() -> impl Strategy<Value = Case> + Clone + use<> {
     (
         arb_doc(),
         prop::sample::select(ENTRIES.to_vec()),
@@ -1670,4 +1670,10 @@ fn main() {
         return;
     }
     engine::main::<C10>()
+}
+
+/// entry point of the libFuzzer target `fuzz/fuzz_targets/c10.rs`
+#[allow(dead_code)]
+pub fn fuzz(data: &[u8]) {
+    engine::fuzz_one::<C10>(data)
 }
